@@ -109,7 +109,7 @@ def spec_indeterminate(el):
 def run(tier, seed):
     ck = Check(PID, tier, seed)
     rnd = ck.rnd
-    ck.proof = lib.proof_step('props/C17.v', matchcheck.MATCH_CONE + ['DirFacts.v'])
+    ck.proof = lib.proof_step('props/C17.v', matchcheck.MATCH_CONE + ['DirFacts.v'] + ['FormFacts.v'])
     ck.broken += ck.proof['broken']
     if not ck.proof['driver_ok']:
         ck.notes['driver'] = 'unavailable: model-side runs skipped, searching with the implementation-side oracles only'
